@@ -126,6 +126,16 @@ func UntarDirectory(r io.Reader, destDir string) error {
 			return err
 		}
 
+		// The checks above are lexical. Refuse to go through a symbolic link
+		// that already exists below destDir (created by an earlier entry or
+		// present before the upload): it may lead outside destDir. Directories
+		// and regular files must not be a symbolic link themselves either,
+		// because MkdirAll and OpenFile follow it.
+		checkLast := header.Typeflag == tar.TypeDir || header.Typeflag == tar.TypeReg
+		if err := ensureNoSymlinks(destDir, targetPath, checkLast); err != nil {
+			return err
+		}
+
 		switch header.Typeflag {
 		case tar.TypeDir:
 			// Create directory
@@ -175,6 +185,9 @@ func UntarDirectory(r io.Reader, destDir string) error {
 			// Hard links - validate target is within destDir
 			linkTarget, err := sanitizeTarPath(destDir, header.Linkname)
 			if err != nil {
+				return err
+			}
+			if err := ensureNoSymlinks(destDir, linkTarget, true); err != nil {
 				return err
 			}
 
@@ -234,6 +247,38 @@ func sanitizeTarPath(destDir, name string) (string, error) {
 	}
 
 	return targetPath, nil
+}
+
+// ensureNoSymlinks verifies that no existing path component between destDir
+// (exclusive) and path is a symbolic link. The last component is only checked
+// when checkLast is set. path must be lexically inside destDir.
+func ensureNoSymlinks(destDir, path string, checkLast bool) error {
+	rel, err := filepath.Rel(destDir, path)
+	if err != nil {
+		return fmt.Errorf("failed to resolve path: %w", err)
+	}
+	if rel == "." {
+		return nil
+	}
+	parts := strings.Split(rel, string(filepath.Separator))
+	if !checkLast {
+		parts = parts[:len(parts)-1]
+	}
+	current := destDir
+	for _, part := range parts {
+		current = filepath.Join(current, part)
+		info, err := os.Lstat(current)
+		if err != nil {
+			if os.IsNotExist(err) {
+				return nil // nothing below this point exists yet
+			}
+			return fmt.Errorf("failed to inspect %s: %w", current, err)
+		}
+		if info.Mode()&os.ModeSymlink != 0 {
+			return fmt.Errorf("refusing to follow symbolic link inside destination: %s", current)
+		}
+	}
+	return nil
 }
 
 // validateSymlink checks if a symlink target is safe (doesn't escape the destination).
